@@ -70,6 +70,13 @@ CHECKS = {
         "assumptions": ["faceting bands are derived per shape (sphere: conservative inscribed radius; extrude: |delta edge|/4 per layer; revolve and frustum: exact facet geometry; LevelSet: 1.5*edgeLength) and points inside the band are skipped and counted",
                         "NaN/garbage arguments are C09's domain; only documented-invalid arguments are expected to give InvalidConstruction"],
     },
+    "C16": {
+        "subs": [
+            {"name": "hull", "bin": "c16_hull", "variant": "asan",
+             "quick": {"n": 8000, "size": 100}, "thorough": {"n": 400000, "size": 150}},
+        ],
+        "assumptions": ["hull containment tolerance 2e-7*scale (quickhull's own epsilon is 1e-7*scale); point sets that are neither exactly degenerate nor span a tetrahedron > 1e-6*scale^3 are unclassified and counted"],
+    },
 }
 
 PBT = "property-based testing (rapidcheck byte-tape generators, shrinking, replay files)"
@@ -93,4 +100,6 @@ MANIFEST_TEXT["C18"] = {"text": "every measurement/query getter compared with a 
                         "note": "generic query arguments by construction/skip rule; meshes <= a few thousand triangles", "technique": PBT + " differential against brute-force reference implementations"}
 MANIFEST_TEXT["C17"] = {"text": "analytic membership of every constructor (with derived faceting bands) and the documented point map of every transform compared with a solid-angle winding number on the export; documented-invalid arguments; Quality segment rules",
                         "note": "sampled points, 60% of them concentrated just off the surface", "technique": PBT + " against analytic reference models and metamorphic transform relations"}
+MANIFEST_TEXT["C16"] = {"text": "Hull judged by vertex-subset, containment and closed-manifold predicates with exact integer rank deciding degeneracy; Minkowski sum/difference judged point-wise by the dilation/erosion definitions with an independent winding number",
+                        "note": "sampled points; small structuring solids (<=40 triangles)", "technique": PBT + " with validity predicates and a set-theoretic reference"}
 NOT_CLAIMED = {}
